@@ -22,7 +22,8 @@ TECHNIQUE = ("exhaustive enumeration of construct/run operation interleavings of
 LEVEL_TEXT = ("All interleavings of new/run operations of 2 objects (<=2 runs each, 2 argument choices) and 3 objects (1 run each), "
               "and every thread schedule of 2 threads (complete, no pre-emption bound) and 3 threads (pre-emption bound 2; 3 in the "
               "thorough tier) at statement granularity are executed on the real library; each run must equal the object's solo result."
-              " Objects include one whose statements address a table only another object defines and one using the per-lexer \"input.regex\" side channel; results already returned to one object must not change when another object runs; scheduling points are optional seams (a tree that caches the lexer simply has fewer), with a finer point set (constructor end, flag reset, statement end, output shaping) explored under pre-emption bound 2 (thorough 3).")
+              " Objects include one whose statements address a table only another object defines and one using the per-lexer \"input.regex\" side channel; results already returned to one object must not change when another object runs; scheduling points are optional seams (a tree that caches the lexer simply has fewer), with a finer point set (constructor end, flag reset, statement end, output shaping) explored under pre-emption bound 2 (thorough 3)."
+              " Solo references are computed by pristine sub-processes (one per object and argument sequence); objects with identical text but different silent / normalize_names settings are part of the alphabet.")
 LEVEL_NOTE = ("Thread exploration is at block granularity (before/after lexer build, after parser build, before each statement, "
               "thread end); completeness rests on shared state (PLY module globals) being written only inside those blocks. "
               "CPython bytecode-level races inside PLY are outside the model.")
